@@ -532,6 +532,7 @@ class Server(metaclass=ABCMeta):
                                       "suggestion of %d milliseconds",
                                       self.name, Server._MIN_KEEPALIVE,
                                       keepalive_time)
+                    self._change_keep_alive(Server._MIN_KEEPALIVE)
 
     def _change_keep_alive(self, keep_alive_milliseconds):
         keep_alive_seconds = keep_alive_milliseconds / 1000
